@@ -369,6 +369,7 @@ struct Runner {
     unodb::this_thread().quiescent();
     concurrent_end();
     accounting(*db, orc, res);
+    reach(*db, c, logs);
     db.reset();
     {
       int nb = 0;
@@ -383,6 +384,36 @@ struct Runner {
     res.nontrivial = false;
     for (auto& e : res.realised) if (e.hook > 1) res.nontrivial = true;
     return res;
+  }
+
+  // reach probes for the evidence: which structural changes happened while threads were running
+  static void reach(Db& db, const Case& c, const std::vector<ThreadLog>& logs) {
+    auto& st = stats();
+#ifdef UNODB_DETAIL_WITH_STATS
+    static const char* cls[] = {"I4", "I16", "I48", "I256"};
+    const auto g = db.get_growing_inode_counts();
+    const auto sh = db.get_shrinking_inode_counts();
+    // prefill grows nodes too: subtract what a sequential build of the prefill alone produces is not available cheaply,
+    // so count shrinks (which only operations of the concurrent phase and the sweep cause) and growth beyond the prefill's
+    const Shape pre = prefill_shape(c);
+    const uint64_t pre_growth[4] = {pre.inodes[0] + pre.inodes[1] + pre.inodes[2] + pre.inodes[3], pre.inodes[1] + pre.inodes[2] + pre.inodes[3], pre.inodes[2] + pre.inodes[3], pre.inodes[3]};
+    for (size_t i = 0; i < 4; i++) {
+      st.bump(std::string("reach_concurrent_growth_") + cls[i], g[i] > pre_growth[i] ? g[i] - pre_growth[i] : 0);
+      st.bump(std::string("reach_concurrent_shrink_") + cls[i], sh[i]);
+    }
+    st.bump("reach_concurrent_prefix_split", db.get_key_prefix_splits());
+#else
+    (void)db;
+#endif
+    uint64_t scans = 0, visits = 0, q = 0, threw = 0;
+    for (auto& l : logs) { scans += l.scans.size(); q += l.quiescents; for (auto& s2 : l.scans) visits += s2.visits.size(); for (auto& e : l.points) threw += e.threw; }
+    st.bump("concurrent_scans", scans); st.bump("concurrent_scan_visits", visits); st.bump("quiescent_states", q); st.bump("inserts_failed_by_injected_allocation_failure", threw);
+    st.bump(c.knob("keykind", 0) ? "programs_byte_string_keys" : "programs_uint64_keys");
+  }
+  static Shape prefill_shape(const Case& c) {
+    std::set<std::string> keys;
+    for (auto& o : c.prefill) keys.insert(o.key);
+    return shape_of(keys);
   }
 
   // C14 sweep: single-threaded, hooks active (a lock left behind = lone spin -> deadlock report)
